@@ -385,6 +385,9 @@ func (w *World) GenAnyTx(rt *rapid.T) GenTx {
 func (w *World) GenBlock(rt *rapid.T) (Block, []GenTx) {
 	dt := time.Duration(rapid.SampledFrom([]int{0, 1, 1, 5, 15, 40, 100}).Draw(rt, "dtSecs")) * time.Second
 	b := Block{DT: dt, Absent: map[string]bool{}}
+	// proposer: one of the genesis operators (the fee split of the previous block is paid to it, including
+	// its reward delegators)
+	b.Proposer = Addr(w.Nodes[rapid.IntRange(0, len(w.Nodes)-1).Draw(rt, "proposer")])
 	// absence: one persistent "victim" operator (chosen per world) misses most blocks when absence is on, so
 	// that downtime slashing / jailing / max-jailed-blocks are reached; the others miss occasionally.
 	if rapid.IntRange(0, 1).Draw(rt, "anyAbsent") == 0 {
